@@ -51,7 +51,8 @@ case_st = st.fixed_dictionaries({
     "p_special": st.sampled_from([0.0, 0.0, 0.05]),
     "one_bin": st.sampled_from([False, False, False, True]),
     "layers": st.lists(st.fixed_dictionaries({"op": st.sampled_from([None, "sum", "mean"]),
-                                              "as_layer": st.booleans()}), max_size=3),
+                                              "as_layer": st.booleans(),
+                                              "same_as_prev": st.sampled_from([False, False, True])}), max_size=3),
     "call_op": st.sampled_from([None, "sum", "mean"]),
     "api": st.sampled_from(["public", "public", "kernel"]),
 })
@@ -169,7 +170,12 @@ def binning(case, r):
                   case["p_special"], case["one_bin"])
     y, yl = _axis(rng, n, res, case["lo"] * 0.5 + 1.0, case["span"] * 2.0, logy, case["p_outside_near"], case["p_edge"],
                   case["p_special"], case["one_bin"])
-    values = [rng.randint(-50, 50, size=n).astype(np.float64) for _ in case["layers"]]
+    values = []
+    for li, spec in enumerate(case["layers"]):
+        if li > 0 and spec.get("same_as_prev"):
+            values.append(values[-1])          # the very same data (and, below, the same Array object)
+        else:
+            values.append(rng.randint(-50, 50, size=n).astype(np.float64))
     limits = case["limits"]
     explicit_x = limits in ("explicit", "mixed")
     explicit_y = limits == "explicit"
@@ -214,8 +220,14 @@ def binning(case, r):
     Y = osyris.Array(values=y, unit="g", name="y")
     layers = []
     eff_ops = []
-    for spec, v in zip(case["layers"], values):
-        arr = osyris.Array(values=v, unit="K", name="lay")
+    prev_arr = None
+    for li, (spec, v) in enumerate(zip(case["layers"], values)):
+        if li > 0 and spec.get("same_as_prev") and prev_arr is not None:
+            arr = prev_arr
+            r.label("layers_share_array")
+        else:
+            arr = osyris.Array(values=v, unit="K", name="lay")
+        prev_arr = arr
         if spec["as_layer"]:
             layers.append(Layer(arr, operation=spec["op"]) if spec["op"] else Layer(arr))
             eff_ops.append(spec["op"] or case["call_op"] or "sum")
